@@ -102,23 +102,16 @@ Theorem C02_encodings_equivalent :
 Proof. exact encodings_equivalent. Qed.
 
 (* ---- the sheet loop: the cells of every legal layout, in stream order ---- *)
-(* layouts: any record kinds in any order, FORMULA followed by any run of ignored records
-   (SHRFMLA / ARRAY / TABLE / …) before its STRING, STRING continued in CONTINUE records,
-   ROW / DBCELL / INDEX / BLANK / MULBLANK / … anywhere, DIMENSIONS in both widths *)
+(* layouts: any record kinds in ANY order (rows need not ascend), FORMULA followed by any run of
+   ignored records (SHRFMLA / ARRAY / TABLE / …) before its STRING, STRING continued in any
+   number of CONTINUE records (each with its own flag byte), ROW / DBCELL / INDEX / BLANK /
+   MULBLANK / … anywhere, DIMENSIONS in both widths *)
 Theorem C02_sheet_cells :
-  forall (fdiv100 : N -> N) (decode16 : list N -> list N) (en : env) (c : layout),
-  wf_layout c = true -> known_C02 c = None ->
-  sheet_cells fdiv100 decode16 en (encode_sheet c) =
-    Ok (logical fdiv100 decode16 en c, layout_fmls c).
-Proof. exact sheet_cells_encode. Qed.
-
-(* inside and outside the known class: what the loop takes from each item *)
-Theorem C02_sheet_cells_read :
   forall (fdiv100 : N -> N) (decode16 : list N -> list N) (en : env) (c : layout),
   wf_layout c = true ->
   sheet_cells fdiv100 decode16 en (encode_sheet c) =
-    Ok (read_logical fdiv100 decode16 en c, layout_fmls c).
-Proof. exact sheet_cells_read. Qed.
+    Ok (logical fdiv100 decode16 en c, layout_fmls c).
+Proof. exact sheet_cells_encode. Qed.
 
 (* a record of any type but FORMULA between a FORMULA and its STRING leaves the pending
    position where it was *)
@@ -129,37 +122,32 @@ Theorem C02_between_keeps_position :
   fpos' = fpos.
 Proof. exact step_keeps_fpos. Qed.
 
-(* ---- the main theorem: every legal layout of a logical sheet reads back as its range ---- *)
+(* read_dbcs over a string result's STRING and CONTINUE fragments: the UTF-16LE bytes of the
+   whole string, wherever the cuts fall and whatever the flag bytes *)
+Theorem C02_string_continue_bytes : forall (more : list xlstr) (s : xlstr) (acc : list N),
+  wf_frag s = true -> forallb wf_frag more = true ->
+  dbcs_bytes (map enc_cont_rec more) (frag_chars s)
+             (lenN (s_units s) + lenN (flat_map s_units more)) (s_wide s) acc =
+    Ok (acc ++ utf16le (s_units s ++ flat_map s_units more)).
+Proof. exact dbcs_bytes_enc. Qed.
+
+(* ---- the main theorem: every legal layout of a logical sheet reads back as its range.
+   [legal c L] = the layout is well-formed and denotes L; the cell records may be in any order
+   (Range::from_sparse searches all four bounds since repo commit 3140dd1), and there is no
+   known class left (the StringContinue defect is repaired on branch c02-fixes) ---- *)
 Theorem C02_xls_sheet_main :
   forall (fdiv100 : N -> N) (decode16 : list N -> list N) (en : env) (L : list cellv) (c : layout),
-  legal fdiv100 decode16 en c L -> known_C02 c = None ->
+  legal fdiv100 decode16 en c L ->
   sheet_model fdiv100 decode16 en (encode_sheet c) = Ok (range_of L).
-Proof. exact (fun fd dc en => @xls_sheet_main fd dc en from_sparse_spec). Qed.
-
-(* every well-formed layout in row order, the known class included: the range of what the
-   reader takes (a continued string result: its first fragment) *)
-Theorem C02_xls_sheet_read :
-  forall (fdiv100 : N -> N) (decode16 : list N -> list N) (en : env) (c : layout),
-  wf_layout c = true -> sorted_by_rowb (read_logical fdiv100 decode16 en c) = true ->
-  sheet_model fdiv100 decode16 en (encode_sheet c) =
-    Ok (range_of (read_logical fdiv100 decode16 en c)).
-Proof. exact (fun fd dc en => @xls_sheet_read fd dc en from_sparse_spec). Qed.
-
-(* known class 1 (StringContinue): a legal layout the reader gets wrong *)
-Theorem C02_refuted_string_continue : forall fdiv100 : N -> N,
-  exists c L, legal fdiv100 id_decode example_env c L /\ known_C02 c = Some 1 /\
-    sheet_model fdiv100 id_decode example_env (encode_sheet c) <> Ok (range_of L) /\
-    sheet_model fdiv100 id_decode example_env (encode_sheet c)
-      = Ok (range_of (read_logical fdiv100 id_decode example_env c)).
-Proof. exact refuted_string_continue. Qed.
+Proof. exact xls_sheet_main. Qed.
 
 Theorem C02_xls_sheet_values :
   forall (fdiv100 : N -> N) (decode16 : list N -> list N) (en : env) (L : list cellv) (c : layout),
-  legal fdiv100 decode16 en c L -> known_C02 c = None ->
+  legal fdiv100 decode16 en c L ->
   exists r, sheet_model fdiv100 decode16 en (encode_sheet c) = Ok r /\ Wf r /\
     rect r = tight_bbox (map fst L) /\
     forall q, get_value r q = if in_rect r q then Some (last_write DEmpty L q) else None.
-Proof. exact (fun fd dc en => @xls_sheet_main_values fd dc en from_sparse_spec). Qed.
+Proof. exact xls_sheet_main_values. Qed.
 
 (* ---- totality (for C06): no byte string panics the sheet reader or exhausts the stated fuel ---- *)
 Theorem C02_no_panic_sheet :
@@ -216,34 +204,34 @@ Proof. exact rk_int_float_x100_agree. Qed.
 Example C02_main_nonvacuous : forall fdiv100 decode16,
   legal fdiv100 decode16 example_env example_layout
         (logical fdiv100 decode16 example_env example_layout) /\
-  known_C02 example_layout = None /\
   length (logical fdiv100 decode16 example_env example_layout) = 14%nat.
 Proof. exact example_legal. Qed.
 
 (* FORMULA, SHRFMLA, STRING (first cell of a filled-down shared text formula), then FORMULA,
-   STRING (second cell); FORMULA, ARRAY, STRING (array anchor returning text): legal, outside
-   the known class, and read back with every string at its cell *)
+   STRING (second cell); FORMULA, ARRAY, STRING (array anchor returning text), the row blocks
+   NOT in row order: legal, and read back with every string at its cell *)
 Definition shared_layout : layout :=
   mkLayout [IDims true 2 5 1 3;
+            IFormula 4 2 0 (CStr (mkStr [8364] true) []) 0 0 [5; 0; 1; 4; 0; 2; 0] [ex_array];
             IFormula 2 1 0 (CStr (mkStr [104; 105] false) []) 8 0 [5; 0; 1; 2; 0; 1; 0]
                      [(1212, [2; 0; 3; 0; 1; 1; 0; 2; 3; 0; 30; 1; 0])];
-            IFormula 3 1 0 (CStr (mkStr [106] false) []) 8 0 [5; 0; 1; 2; 0; 1; 0] [];
-            IFormula 4 2 0 (CStr (mkStr [8364] true) []) 0 0 [5; 0; 1; 4; 0; 2; 0] [ex_array]] [].
+            IFormula 3 1 0 (CStr (mkStr [106] false) []) 8 0 [5; 0; 1; 2; 0; 1; 0] []] [].
 Example C02_shrfmla_nonvacuous : forall fdiv100,
   legal fdiv100 id_decode example_env shared_layout
         (logical fdiv100 id_decode example_env shared_layout) /\
-  known_C02 shared_layout = None /\
+  sorted_by_rowb (logical fdiv100 id_decode example_env shared_layout) = false /\
   sheet_model fdiv100 id_decode example_env (encode_sheet shared_layout) =
     Ok (mkRange (2, 1) (4, 2)
           [DString [104; 0; 105; 0]; DEmpty; DString [106; 0]; DEmpty; DEmpty; DString [172; 32]]).
 Proof. intros. repeat split; vm_compute; reflexivity. Qed.
 
-Example C02_read_nonvacuous : forall fdiv100,
-  wf_layout cont_layout = true /\
-  sorted_by_rowb (read_logical fdiv100 id_decode example_env cont_layout) = true /\
-  read_logical fdiv100 id_decode example_env cont_layout = [((1, 1), DString [104; 0])] /\
-  logical fdiv100 id_decode example_env cont_layout = [((1, 1), DString [104; 0; 105; 0; 172; 32])].
-Proof. intros. repeat split; reflexivity. Qed.
+(* a string result continued in a CONTINUE record (the former known class): read in full *)
+Example C02_string_continue_nonvacuous : forall fdiv100,
+  legal fdiv100 id_decode example_env cont_layout
+        (logical fdiv100 id_decode example_env cont_layout) /\
+  sheet_model fdiv100 id_decode example_env (encode_sheet cont_layout)
+    = Ok (mkRange (1, 1) (1, 1) [DString [104; 0; 105; 0; 172; 32]]).
+Proof. exact example_string_continue. Qed.
 
 Example C02_between_nonvacuous : forall fdiv100,
   step fdiv100 id_decode example_env (mkRec 1212 [2; 0; 3; 0; 1; 1; 0; 2; 3; 0; 30; 1; 0] None)
@@ -267,13 +255,8 @@ Proof. repeat split; reflexivity. Qed.
 
 Check C02_xls_sheet_main :
   forall (fdiv100 : N -> N) (decode16 : list N -> list N) (en : env) (L : list cellv) (c : layout),
-  legal fdiv100 decode16 en c L -> known_C02 c = None ->
+  legal fdiv100 decode16 en c L ->
   sheet_model fdiv100 decode16 en (encode_sheet c) = Ok (range_of L).
-Check C02_xls_sheet_read :
-  forall (fdiv100 : N -> N) (decode16 : list N -> list N) (en : env) (c : layout),
-  wf_layout c = true -> sorted_by_rowb (read_logical fdiv100 decode16 en c) = true ->
-  sheet_model fdiv100 decode16 en (encode_sheet c) =
-    Ok (range_of (read_logical fdiv100 decode16 en c)).
 Check C02_no_panic_sheet :
   forall (fdiv100 : N -> N) (decode16 : list N -> list N) (en : env) (stream : list N),
   sheet_model fdiv100 decode16 en stream <> Panic /\
@@ -300,11 +283,9 @@ Print Assumptions C02_err_codes_one_to_one.
 Print Assumptions C02_formula_cached_value.
 Print Assumptions C02_encodings_equivalent.
 Print Assumptions C02_sheet_cells.
-Print Assumptions C02_sheet_cells_read.
 Print Assumptions C02_between_keeps_position.
 Print Assumptions C02_xls_sheet_main.
-Print Assumptions C02_xls_sheet_read.
-Print Assumptions C02_refuted_string_continue.
+Print Assumptions C02_string_continue_bytes.
 Print Assumptions C02_xls_sheet_values.
 Print Assumptions C02_no_panic_sheet.
 Print Assumptions C02_no_panic_sheet_cells.
